@@ -185,7 +185,9 @@ class InputScope(PSBTScope):
         self.witness_script = other.witness_script or self.witness_script
         self.bip32_derivations.update(other.bip32_derivations)
         self.taproot_bip32_derivations.update(other.taproot_bip32_derivations)
-        self.taproot_internal_key = other.taproot_internal_key
+        self.taproot_internal_key = (
+            other.taproot_internal_key or self.taproot_internal_key
+        )
         self.taproot_merkle_root = other.taproot_merkle_root or self.taproot_merkle_root
         self.taproot_sigs.update(other.taproot_sigs)
         self.taproot_scripts.update(other.taproot_scripts)
@@ -542,7 +544,9 @@ class OutputScope(PSBTScope):
         self.witness_script = other.witness_script or self.witness_script
         self.bip32_derivations.update(other.bip32_derivations)
         self.taproot_bip32_derivations.update(other.taproot_bip32_derivations)
-        self.taproot_internal_key = other.taproot_internal_key
+        self.taproot_internal_key = (
+            other.taproot_internal_key or self.taproot_internal_key
+        )
 
     @property
     def vout(self):
